@@ -88,7 +88,8 @@ static inline bool r_cell_has_hf(int c, int h) { return r_chf(c, 0) == h || r_ch
 static inline bool r_cell_has_v(int c, int v) { return r_hf_has_v(r_chf(c, 0), v) || r_hf_has_v(r_chf(c, 1), v) || r_hf_has_v(r_chf(c, 2), v) || r_hf_has_v(r_chf(c, 3), v); }
 static inline bool r_live_tet(int c) { return R_ok && c >= 0 && c < R_nC && !R_cdel[c]; }
 // the vertex of cell c that does not lie on halfface h; -1 if none, -2 if several
-static inline int r_apex(int c, int h) {
+// (noinline: CBMC's unwind counters are per call frame; inlined into an outer loop the nest's back-edges accumulate past --unwind)
+static __attribute__((noinline)) int r_apex(int c, int h) {
   int r = -1;
   for (int k = 0; k < 4; ++k) for (int j = 0; j < 3; ++j) {
     int v = r_hf_v(r_chf(c, k), j);
@@ -106,7 +107,7 @@ static inline void r_tuple(int c, int h, int start, int out[4]) {
   out[0] = r_hf_v(h, start % 3); out[1] = r_hf_v(h, (start + 1) % 3); out[2] = r_hf_v(h, (start + 2) % 3); out[3] = r_apex(c, h);
 }
 // the cell's halfface whose stored vertex cycle is a rotation of (x,y,z); -1 if none
-static inline int r_cell_hf_with_cycle(int c, int x, int y, int z) {
+static __attribute__((noinline)) int r_cell_hf_with_cycle(int c, int x, int y, int z) {
   int r = -1;
   for (int k = 0; k < 4; ++k) {
     int h = r_chf(c, k), p = r_hf_pos(h, x);
@@ -121,7 +122,7 @@ static inline bool r_cell_lists_he(int c, int he) {
 }
 
 // parity (0 even, 1 odd) of the permutation taking tuple p to tuple q; -1 if they are not permutations of 4 distinct values
-static inline int perm_parity(const int p[4], const int q[4]) {
+static __attribute__((noinline)) int perm_parity(const int p[4], const int q[4]) {
   int idx[4];
   for (int i = 0; i < 4; ++i) { idx[i] = -1; for (int j = 0; j < 4; ++j) if (q[i] == p[j]) idx[i] = (idx[i] == -1) ? j : -2; }
   for (int i = 0; i < 4; ++i) if (idx[i] < 0) return -1;
